@@ -1110,6 +1110,193 @@ Qed.
 Lemma invalidate_all_ivf fuel l : forall s s', rfold (invalidateNode fuel) l s = Ok s' -> ivf s s'.
 Proof. apply ivf_rfold. intros s a s'. apply invalidateNode_ivf. Qed.
 
+(** ** the log: the structural operations of a bind step append only events that are not
+       invocations or cutoff verdicts *)
+Definition quiet (e : event) : Prop := ev_node e = None.
+Definition LQ (s s' : state) : Prop := exists l, log s' = l ++ log s /\ Forall quiet l.
+
+Lemma LQ_eq s s' : log s' = log s -> LQ s s'.
+Proof. intros E. exists []. split; [exact E|constructor]. Qed.
+Lemma LQ_refl s : LQ s s. Proof. apply LQ_eq. reflexivity. Qed.
+Lemma LQ_trans s1 s2 s3 : LQ s1 s2 -> LQ s2 s3 -> LQ s1 s3.
+Proof.
+  intros (l1 & E1 & F1) (l2 & E2 & F2). exists (l2 ++ l1). split; [rewrite E2, E1, app_assoc; reflexivity|].
+  apply Forall_app. auto.
+Qed.
+Lemma LQ_emit s e : quiet e -> LQ s (emit e s).
+Proof. intros Q. exists [e]. split; [apply log_emit|]. constructor; [exact Q|constructor]. Qed.
+Lemma LQ_of (P : event -> Prop) s s' :
+  (exists l, log s' = l ++ log s /\ Forall P l) -> (forall e, P e -> quiet e) -> LQ s s'.
+Proof. intros (l & E & F) HP. exists l. split; [exact E|]. eapply List.Forall_impl; [|exact F]. exact HP. Qed.
+Lemma LQ_td s s' : td_frame s s' -> LQ s s'.
+Proof. intros F. apply (LQ_of _ _ _ (tf_log _ _ F)). intros e [n ->]. reflexivity. Qed.
+Lemma LQ_bn s s' : bn_frame s s' -> LQ s s'.
+Proof. intros F. apply (LQ_of _ _ _ (bf_log _ _ F)). intros e [n ->]. reflexivity. Qed.
+Lemma LQ_oh s s' : only_heap s s' -> LQ s s'.
+Proof. intros O. apply LQ_eq, (oh_log _ _ O). Qed.
+
+Lemma LQ_rfold {A} (f : state -> A -> res state) l :
+  (forall s a s', f s a = Ok s' -> LQ s s') -> forall s s', rfold f l s = Ok s' -> LQ s s'.
+Proof.
+  intros Hf. induction l as [|a l IH]; intros s s' H.
+  - injection H as <-. apply LQ_refl.
+  - rewrite rfold_cons in H. destruct (f s a) as [s1| |] eqn:E1; simpl in H; try discriminate.
+    eapply LQ_trans; [eapply Hf; eauto|eapply IH; eauto].
+Qed.
+
+Lemma LQ_efold {A} (f : state -> A -> M) l : (forall s a s' e, f s a = Ok (s', e) -> LQ s s') ->
+  forall s s' e, efold f l s = Ok (s', e) -> LQ s s'.
+Proof.
+  intros Hf. induction l as [|a l IH]; intros s s' e H; simpl in H.
+  - apply ok_inv in H as [-> _]. apply LQ_refl.
+  - apply ebind_inv in H as (s1 & e1 & E1 & [[-> H]|(_ & -> & _)]).
+    + eapply LQ_trans; [eapply Hf; eauto|eapply IH; eauto].
+    + eapply Hf; eauto.
+Qed.
+
+Lemma LQ_setHeight s n h s' e : setHeight s n h = Ok (s', e) -> LQ s s'.
+Proof.
+  intros H. apply setHeight_inv in H as [(_ & -> & _)|(_ & _ & ->)]; [apply LQ_refl|].
+  apply LQ_eq. destruct (h >? a_maxSeen (adj s)); reflexivity.
+Qed.
+
+Lemma LQ_adjAdd s n s' : adjAdd s n = Ok s' -> LQ s s'.
+Proof.
+  unfold adjAdd. destruct (negb _); [intros [= <-]; apply LQ_refl|].
+  destruct (height (nd s n) <? 0); [discriminate|]. destruct (_ !! _); [|discriminate].
+  intros [= <-]. apply LQ_eq. reflexivity.
+Qed.
+
+Lemma LQ_adjRemoveMin s r s' : adjRemoveMin s = Ok (r, s') -> LQ s s'.
+Proof.
+  unfold adjRemoveMin. destruct (_ =? 0); [intros [= <- <-]; apply LQ_refl|].
+  destruct (_ <? 0); [discriminate|]. destruct (adjScan _ _ _) as [[[x n] b']|]; [|intros [= <- <-]; apply LQ_refl].
+  intros [= <- <-]. apply LQ_eq. reflexivity.
+Qed.
+
+Lemma LQ_ensure s o c p s' e : ensureHeightRequirement s o c p = Ok (s', e) -> LQ s s'.
+Proof.
+  unfold ensureHeightRequirement. destruct (bool_decide _); [intros [-> _]%fail_inv; apply LQ_refl|].
+  destruct (_ >=? _); [|intros [-> _]%ok_inv; apply LQ_refl].
+  intros H. apply ebind_inv in H as (s1 & e1 & E1 & [[-> H]|(_ & -> & _)]).
+  - apply lift_inv in E1 as [E1 _]. eapply LQ_trans; [eapply LQ_adjAdd; eauto|eapply LQ_setHeight; eauto].
+  - unfold lift in E1. destruct (adjAdd s c) as [s2| |] eqn:Ea; simpl in E1; try discriminate.
+    injection E1 as <- _. eapply LQ_adjAdd; eauto.
+Qed.
+
+Lemma LQ_adjustLoop fuel : forall s o s' e, adjustLoop fuel s o = Ok (s', e) -> LQ s s'.
+Proof.
+  induction fuel as [|fuel IH]; intros s o s' e H; [discriminate|]. cbn [adjustLoop] in H.
+  destruct (_ <=? 0); [apply ok_inv in H as [-> _]; apply LQ_refl|].
+  destruct (adjRemoveMin s) as [[r s1]| |] eqn:E1; simpl in H; try discriminate.
+  pose proof (LQ_adjRemoveMin _ _ _ E1) as G1. destruct r as [p|]; [|discriminate].
+  apply ebind_inv in H as (s2 & e2 & E2 & H).
+  assert (G2 : LQ s1 s2).
+  { unfold lift in E2. destruct (inHeap s1 p) eqn:Ep.
+    - destruct (heapFix s1 p) as [s2'| |] eqn:Ef; simpl in E2; try discriminate. injection E2 as <- _.
+      destruct (heapFix_mem _ _ _ Ep Ef) as [O Hm]. apply LQ_oh, O.
+    - simpl in E2. injection E2 as <- _. apply LQ_refl. }
+  destruct H as [[-> H]|(_ & -> & _)]; [|eapply LQ_trans; eauto].
+  apply ebind_inv in H as (s3 & e3 & E3 & H).
+  assert (G3 : LQ s2 s3).
+  { refine (LQ_efold _ _ _ _ _ _ E3). intros st c st' e' Hc. eapply LQ_ensure; eauto. }
+  destruct H as [[-> H]|(_ & -> & _)]; [|eapply LQ_trans; [exact G1|eapply LQ_trans; eauto]].
+  apply ebind_inv in H as (s4 & e4 & E4 & H).
+  assert (G4 : LQ s3 s4).
+  { destruct (nkind (nd s3 p)); try (apply ok_inv in E4 as [-> _]; apply LQ_refl).
+    refine (LQ_efold _ _ _ _ _ _ E4). intros st r st' e' Hc.
+    destruct (isNecessary (nd st r)); [eapply LQ_ensure; eauto|apply ok_inv in Hc as [-> _]; apply LQ_refl]. }
+  eapply LQ_trans; [exact G1|]. eapply LQ_trans; [exact G2|]. eapply LQ_trans; [exact G3|].
+  eapply LQ_trans; [exact G4|]. destruct H as [[-> H]|(_ & -> & _)]; [eapply IH; eauto|apply LQ_refl].
+Qed.
+
+Lemma LQ_adjustHeights fuel s oc op s' e : adjustHeights fuel s oc op = Ok (s', e) -> LQ s s'.
+Proof.
+  unfold adjustHeights. intros H. apply ebind_inv in H as (s1 & e1 & E1 & H).
+  pose proof (LQ_ensure _ _ _ _ _ _ E1) as G1.
+  assert (G0 : LQ s s1) by (eapply LQ_trans; [|exact G1]; apply LQ_eq; reflexivity).
+  destruct H as [[-> H]|(_ & -> & _)]; [eapply LQ_trans; [exact G0|eapply LQ_adjustLoop; eauto]|exact G0].
+Qed.
+
+Lemma LQ_heapAddIfNotPresent s n s' : heapAddIfNotPresent s n = Ok s' -> LQ s s'.
+Proof. intros H. apply LQ_oh, (only_heap_heapAddIfNotPresent _ _ _ H). Qed.
+
+Lemma LQ_invalidateNode fuel : forall s n s', invalidateNode fuel s n = Ok s' -> LQ s s'.
+Proof.
+  induction fuel as [|fuel IH]; intros s n s' H; [discriminate|]. cbn [invalidateNode] in H.
+  destruct (negb (valid (nd s n))); [injection H as <-; apply LQ_refl|].
+  set (sa := upd (emit (EvInval n) s) n _) in H.
+  assert (Ga : LQ s sa) by (eapply LQ_trans; [apply (LQ_emit s (EvInval n)); reflexivity|apply LQ_eq; reflexivity]).
+  apply rbind_ok in H as (sb & Eb & H).
+  assert (Gb : LQ sa sb).
+  { destruct (isNecessary (nd sa n)); [|injection Eb as <-; apply LQ_refl].
+    apply rbind_ok in Eb as (sb' & Eb' & Eb). injection Eb as <-.
+    eapply LQ_trans; [apply LQ_td, (proj1 (teardown_frame fuel) _ _ _ Eb')|apply LQ_eq; reflexivity]. }
+  apply rbind_ok in H as (sc & Ec & H).
+  assert (Gc : LQ sb sc).
+  { destruct (nkind (nd sb n)); try (injection Ec as <-; apply LQ_refl).
+    refine (LQ_rfold _ _ _ _ _ Ec). intros st a st' Ha. eapply IH; eauto. }
+  eapply LQ_trans; [exact Ga|]. eapply LQ_trans; [exact Gb|]. eapply LQ_trans; [exact Gc|].
+  match type of H with (if ?c then _ else _) = _ => destruct c end.
+  - apply heapRemove_inv in H as (w & _ & ->). apply LQ_eq. reflexivity.
+  - injection H as <-. apply LQ_eq. reflexivity.
+Qed.
+
+Lemma LQ_propagateInvalidity fuel : forall s s', propagateInvalidity fuel s = Ok s' -> LQ s s'.
+Proof.
+  induction fuel as [|fuel IH]; intros s s' H; [discriminate|]. cbn [propagateInvalidity] in H.
+  destruct (invq s) as [|n q] eqn:Eq; [injection H as <-; apply LQ_refl|].
+  apply rbind_ok in H as (s1 & E1 & H).
+  eapply LQ_trans; [|eapply IH; eauto].
+  eapply LQ_trans; [apply (LQ_eq s (s <| invq := q |>)); reflexivity|].
+  destruct (valid _); [|injection E1 as <-; apply LQ_refl].
+  destruct (shouldBeInvalidated _ _); [eapply LQ_invalidateNode; eauto|eapply LQ_heapAddIfNotPresent; eauto].
+Qed.
+
+Lemma LQ_addChild fuel s c p s' e : addChild fuel s c p = Ok (s', e) -> LQ s s'.
+Proof.
+  unfold addChild. intros H.
+  apply ebind_inv in H as (s1 & e1 & E1 & H).
+  assert (G1 : LQ s s1).
+  { unfold addChildWithoutAdjustingHeights in E1.
+    set (sa := link s c p) in *. set (sb := if valid (nd sa p) then sa else _) in *.
+    assert (Gb : LQ s sb) by (apply LQ_eq; unfold sb; destruct (valid (nd sa p)); reflexivity).
+    destruct (isNecessary (nd s p)); [apply ok_inv in E1 as [-> _]; exact Gb|].
+    eapply LQ_trans; [exact Gb|]. apply LQ_bn, (proj1 (BN_frame _ _ _ _ _ E1)). }
+  destruct H as [[-> H]|(_ & -> & _)]; [|exact G1].
+  apply ebind_inv in H as (s2 & e2 & E2 & H).
+  assert (G2 : LQ s1 s2).
+  { destruct (_ >=? _); [eapply LQ_adjustHeights; eauto|apply ok_inv in E2 as [-> _]; apply LQ_refl]. }
+  destruct H as [[-> H]|(_ & -> & _)]; [|eapply LQ_trans; eauto].
+  apply ebind_inv in H as (s3 & e3 & E3 & H).
+  assert (G3 : LQ s2 s3).
+  { unfold lift in E3. destruct (propagateInvalidity fuel s2) as [s3'| |] eqn:Ep; simpl in E3; try discriminate.
+    injection E3 as <- _. eapply LQ_propagateInvalidity; eauto. }
+  eapply LQ_trans; [exact G1|]. eapply LQ_trans; [exact G2|].
+  destruct H as [[-> H]|(_ & -> & _)]; [|exact G3].
+  eapply LQ_trans; [exact G3|].
+  destruct (_ || _).
+  - apply lift_inv in H as [H _]. eapply LQ_heapAddIfNotPresent; eauto.
+  - apply ok_inv in H as [-> _]. apply LQ_refl.
+Qed.
+
+Lemma LQ_checkIfUnnecessary fuel s p s' : checkIfUnnecessary fuel s p = Ok s' -> LQ s s'.
+Proof. intros H. apply LQ_td, (proj2 (teardown_frame fuel) _ _ _ H). Qed.
+
+Lemma LQ_changeParent fuel s c o n s' e : changeParent fuel s c o n = Ok (s', e) -> LQ s s'.
+Proof.
+  unfold changeParent. destruct o as [o|], n as [n|].
+  - destruct (bool_decide (o = n)); [intros [-> _]%ok_inv; apply LQ_refl|]. intros H.
+    apply ebind_inv in H as (s1 & e1 & E1 & H).
+    assert (G1 : LQ s s1) by (eapply LQ_trans; [|eapply LQ_addChild; eauto]; apply LQ_eq; reflexivity).
+    destruct H as [[-> H]|(_ & -> & _)]; [|exact G1].
+    eapply LQ_trans; [exact G1|]. apply lift_inv in H as [H _].
+    eapply LQ_trans; [|exact (LQ_checkIfUnnecessary _ _ _ _ H)]. apply LQ_eq. reflexivity.
+  - intros H. apply lift_inv in H as [H _]. eapply LQ_trans; [|exact (LQ_checkIfUnnecessary _ _ _ _ H)]. apply LQ_eq. reflexivity.
+  - intros H. eapply LQ_addChild; eauto.
+  - intros [-> _]%ok_inv. apply LQ_refl.
+Qed.
+
 (** * 3. The stages of [bindLhsStabilize] (the structural facts: EngineInvProofs) *)
 Definition s6_of (b : nat) (x : Z) (s3 : state) (root : option nid) : state :=
   updb (updb (emit (EvBindFn b x root) s3) b
@@ -1473,6 +1660,29 @@ Proof.
   - rewrite (Hs n Hn) in E. destruct (Hsc n b0 E) as [[r Hr] _].
     apply (chain_in s n b0 t d E). apply IH. apply (bw_has_lhs _ _ _ (Hbw b0 r Hr)).
 Qed.
+
+Lemma inval_opt_LQ fuel (o : option nid) l t u :
+  (match o with Some _ => rfold (invalidateNode fuel) l t | None => Ok t end) = Ok u -> LQ t u.
+Proof.
+  destruct o; [|intros [= <-]; apply LQ_refl]. apply LQ_rfold. intros st a st' H. eapply LQ_invalidateNode; eauto.
+Qed.
+
+(** what the recompute of the lhs-change node [b] does to the nodes that existed before it *)
+Record bfr (s : state) (b : nat) (s' : state) : Prop := {
+  bx_k : stabNum s' = stabNum s;
+  bx_has : forall m, has s m -> has s' m;
+  bx_old : forall m, has s m -> nkind (nd s' m) = nkind (nd s m) /\ value (nd s' m) = value (nd s m) /\
+                     (m <> S b -> decl (nd s' m) = decl (nd s m));
+  bx_valueOf : forall p, has s p -> valueOf s' p = valueOf s p;
+  bx_stamps : forall m, m <> b ->
+    (recomputedAt (nd s' m) = recomputedAt (nd s m) /\ changedAt (nd s' m) = changedAt (nd s m) /\
+     (inGraph (nd s m) = true -> inGraph (nd s' m) = true)) \/
+    (inGraph (nd s' m) = false /\ recomputedAt (nd s' m) = 0 /\ changedAt (nd s' m) = 0) \/
+    (valid (nd s' m) = false /\ recomputedAt (nd s' m) = changedAt (nd s' m));
+  bx_self : recomputedAt (nd s' b) = stabNum s /\ inGraph (nd s' b) = true;
+  bx_edge : edge s b (S b);
+  bx_log : LQ s s'
+}.
 
 Section Assemble.
   Context (fuel : nat) (s : state) (b : nat) (u s' : state) (imm : option nid).
@@ -2418,6 +2628,32 @@ Section Assemble.
     apply (S'old y Hy).
   Qed.
 
+  Local Lemma C_log : LQ s s'.
+  Proof.
+    assert (G7 : LQ s s7).
+    { exists [EvBindFn b x root]. split; [|constructor; [reflexivity|constructor]].
+      change (EvBindFn b x root :: log s3 = [EvBindFn b x root] ++ log s).
+      destruct (if_fields _ _ _ (proj1 IF)) as (_&_&_&_&_&_&_&_&_&_&_&_&->). reflexivity. }
+    eapply LQ_trans; [exact G7|]. eapply LQ_trans; [exact (LQ_changeParent _ _ _ _ _ _ _ Ecp)|].
+    eapply LQ_trans; [exact (inval_opt_LQ fuel _ _ _ _ Eiv)|].
+    apply LQ_eq. destruct (tp_shape _ _ _ _ TPs) as (w & h & E). rewrite E. reflexivity.
+  Qed.
+
+  Lemma assemble_frame : bfr s b s'.
+  Proof.
+    constructor.
+    - exact S'k.
+    - intros m Hm. apply S'has, U_has.
+      assert (Hm1 : has s1' m) by (unfold s1'; rewrite has_updb; unfold s1; rewrite has_upd; exact Hm).
+      unfold has. rewrite (if_old _ _ _ (proj1 IF) m) by (left; apply Hlt1, Hm1). exact Hm1.
+    - intros m Hm. destruct (S'old m Hm) as (A & _ & B & C). auto.
+    - exact S'valueOf.
+    - intros m Hm. rewrite (S'nd m Hm). apply (U_stamps m Hm).
+    - destruct U_b as (A & _ & B). split; [rewrite S'b; exact A|rewrite S'ingraph; exact B].
+    - exact Hedge_bmain.
+    - exact C_log.
+  Qed.
+
   Lemma assemble : (LInvC s' imm /\ Tplain s') /\ imm = None /\ stabNum s' = stabNum s /\ CF s s' /\
     (forall y, isDone s' y = true -> inGraph (nd s' y) = true -> isAlways (nkind (nd s' y)) = true ->
                isDone s y = true /\ inGraph (nd s y) = true /\ isAlways (nkind (nd s y)) = true).
@@ -2455,6 +2691,15 @@ Theorem bind_step fuel s b s' imm :
   Tplain s -> PInv s -> LInvC s (Some b) -> inGraph (nd s b) = true -> nkind (nd s b) = KBindLhs b ->
   recomputeNodeSerial fuel [] s b = Ok (s', None, imm) -> PInv s' -> LInvC s' imm /\ Tplain s'.
 Proof. intros TP P L Hg Hk H P'. apply (bind_step_full fuel s b s' imm TP P L Hg Hk H P'). Qed.
+
+Theorem bind_step_frame fuel s b s' imm :
+  Tplain s -> PInv s -> LInvC s (Some b) -> inGraph (nd s b) = true -> nkind (nd s b) = KBindLhs b ->
+  recomputeNodeSerial fuel [] s b = Ok (s', None, imm) -> PInv s' -> bfr s b s'.
+Proof.
+  intros TP P L Hg Hk H P'. destruct (rns_lhs fuel s b s' imm Hk H) as (u & Hbind & Htail).
+  destruct (stages fuel s b u P Hg Hk Hbind) as (s3 & root & t8 & Einst & FP & Ecp & T8 & F8 & Eiv & Hsame & Hval & PU).
+  eapply (assemble_frame fuel s b u s' imm); eassumption.
+Qed.
 
 (** * 5. The pass: binds with plain templates may swap *)
 Lemma Tplain_binds s s' : binds s' = binds s -> Tplain s -> Tplain s'.
